@@ -329,7 +329,7 @@ Section Scaling.
     - unfold c_grid. destruct (applicable _ _); [|exact Hs]. destruct s; cbn [do_grid]; try exact I.
       destruct (Nat.eqb (length grid0) pts); [|exact I]. unfold mkgrid. destruct (grid_ok grid0); cbn; auto.
     - unfold c_phi1d. destruct (applicable _ _); [|exact Hs]. destruct s; cbn [do_phi1d]; try exact I. apply on_grid0_mkphi, Hs.
-    - unfold c_split. destruct (applicable _ _); [|exact Hs]. destruct s; cbn [do_split]; try exact I.
+    - unfold c_split. destruct (applicable _ _); [|exact I]. destruct s; cbn [do_split]; try exact I.
       destruct (Nat.eqb d 1); [apply on_grid0_mkphi, Hs|]. destruct (split_index d parent); [apply on_grid0_mkphi_opt, Hs|exact I].
     - unfold c_admixnew. destruct (applicable _ _); [|exact Hs]. destruct s; cbn [do_admixnew]; try exact I. apply on_grid0_mkphi_opt, Hs.
     - unfold c_pulse. destruct (applicable _ _); [|exact Hs]. destruct s; cbn [do_pulse]; try exact I.
